@@ -635,7 +635,7 @@ func main() {
 	srcs := []*net.UDPAddr{srcV4, srcV6, srcMapped}
 
 	// ---- stream 1a: valid packets
-	nValid := run.Count(170, 6000)
+	nValid := run.Count(170, 3000)
 	for i := 0; i < nValid; i++ {
 		r := x.rng.Fork(uint64(i))
 		cf := x.cfgs[i%len(x.cfgs)]
@@ -648,7 +648,7 @@ func main() {
 		x.emitModel("valid", cf, sc, "l4:"+o.L4)
 	}
 	// ---- stream 1b: field-level mutations, and SCMP errors delivered locally (getDstPortSCMP)
-	nField := run.Count(230, 9000)
+	nField := run.Count(230, 4500)
 	for i := 0; i < nField; i++ {
 		r := x.rng.Fork(uint64(100000 + i))
 		cf := x.cfgs[i%len(x.cfgs)]
@@ -686,6 +686,27 @@ func main() {
 			spgen.Decorate(r, sc, 0)
 		}
 		x.emitModel("field-mutated", cf, sc, "mut:"+strings.SplitN(m, "+", 2)[0])
+	}
+	// ---- stream 1b': local delivery of upper layers of every length 0..24 (UDP, TCP, SCMP echo / traceroute
+	// replies): the port extraction of dstScionPort / getDstPortSCMP at every truncation point
+	for _, proto := range []uint8{17, 6, 202} {
+		for n := 0; n <= 24; n++ {
+			r := x.rng.Fork(uint64(150000 + int(proto)*100 + n))
+			cf := x.cfgs[n%len(x.cfgs)]
+			sc := rtgen.GenValid(r, cf.rt.Cfg, x.now, "inbound")
+			b := r.Bytes(n)
+			if proto == 202 && n > 0 {
+				b[0] = vgen.Pick(r, uint8(128), 129, 130, 131)
+			}
+			sc.Desc.L4 = rtgen.RawL4(proto, b)
+			sc.Desc.HBH, sc.Desc.E2E = nil, nil
+			sc.Desc.Dst = rtgen.HostIP4(10, 0, 5, byte(1+n))
+			if n%3 == 0 {
+				sc.Desc.E2E = []rtgen.Opt{}
+			}
+			sc.Mut = fmt.Sprintf("l4-proto%d-len%d", proto, n)
+			x.emitModel("short-l4", cf, sc)
+		}
 	}
 	// ---- stream 1c: one-hop and empty paths
 	nOHP := run.Count(120, 6000)
